@@ -56,6 +56,8 @@ func litForName(name string) string {
 		return "{a: 1}"
 	case "NilClass":
 		return "nil"
+	case "Untyped":
+		return "7"
 	}
 	return name + ".new"
 }
@@ -104,7 +106,14 @@ func genClasses(r *RNG, n int, prefix string) []*GClass {
 					for extra := 1 + r.Intn(3); extra > 0; extra-- {
 						p.Types = append(p.Types, Pick(r, gScalarTypes))
 					}
+					if r.Chance(1, 3) {
+						// a union with an Untyped member takes anything
+						p.Types = append(p.Types, "Untyped")
+					}
 					p.Types = dedupKeep(p.Types)
+				}
+				if len(p.Types) == 1 && r.Chance(1, 6) {
+					p.Types = append(p.Types, "Untyped")
 				}
 				if seenDefault || (r.Chance(1, 4) && !(objectLike && q == 0)) {
 					p.Default = true
@@ -115,8 +124,23 @@ func genClasses(r *RNG, n int, prefix string) []*GClass {
 			if r.Chance(1, 6) {
 				m.Params = append(m.Params, GParam{Types: []string{Pick(r, gScalarTypes)}, Rest: true})
 			}
-			if r.Chance(1, 5) {
-				m.Params = append(m.Params, GParam{Types: []string{Pick(r, gScalarTypes)}, Key: Pick(r, []string{"mode", "size", "name"}), Default: r.Bool()})
+			if r.Chance(1, 3) {
+				// one or two keywords; names that are prefixes of each other
+				keys := []string{"mode", "mode2", "size", "size10", "name"}
+				k1 := Pick(r, keys)
+				m.Params = append(m.Params, GParam{Types: []string{Pick(r, gScalarTypes)}, Key: k1, Default: r.Bool()})
+				if r.Bool() {
+					k2 := Pick(r, keys)
+					switch k1 {
+					case "mode":
+						k2 = "mode2"
+					case "size10":
+						k2 = "size"
+					}
+					if k2 != k1 {
+						m.Params = append(m.Params, GParam{Types: []string{Pick(r, gScalarTypes)}, Key: k2, Default: r.Bool()})
+					}
+				}
 			}
 			switch r.Intn(8) {
 			case 0:
@@ -148,6 +172,16 @@ func genClasses(r *RNG, n int, prefix string) []*GClass {
 				}
 				c.Methods = append(c.Methods, o)
 			}
+		}
+		if i == 0 {
+			// always one method with two required keywords whose names share a prefix
+			t1 := Pick(r, gScalarTypes)
+			t2 := Pick(r, gScalarTypes)
+			for t2 == t1 {
+				t2 = Pick(r, gScalarTypes)
+			}
+			ks := Pick(r, [][2]string{{"mode", "mode2"}, {"size10", "size"}, {"pin", "pin2"}})
+			c.Methods = append(c.Methods, &GMethod{Name: "kw2", Params: []GParam{{Types: []string{t1}, Key: ks[0]}, {Types: []string{t2}, Key: ks[1]}}, Ret: []string{Pick(r, gScalarTypes)}})
 		}
 		out = append(out, c)
 	}
